@@ -941,7 +941,7 @@ fn miri_stage(ctx: &Ctx, rep: &mut Report) {
     for i in 0..n {
         let nblocks = rng.urange(1, 4);
         let lens: Vec<u32> = (0..nblocks).map(|_| if rng.chance(1, 4) { 0 } else { rng.urange(1, 6) as u32 }).collect();
-        let layout = built(&lens, (i % 3) as u8, (i % 3 != 0) as u8, "random", 4000 + i);
+        let layout = built(&lens, [0u8, 0, 1][(i % 3) as usize], (i % 2 != 0) as u8, "random", 4000 + i);
         let flavor = match i % 10 {
             3 | 7 => Flavor::Indexed,
             9 => Flavor::Mt,
